@@ -12,9 +12,16 @@ C02 — Rendering never panics and never writes outside the viewport.
   `Retro.Props.C02.Poison`  : NaN/∞-freedom of the depth buffer as a theorem — `render` run at `Poison K` on a lifted
                               scene is the lift of the exact run (`render_poison_free`), so the returned depth
                               buffer holds no `bad` entry (`render_depth_poison_free`)
+  `Retro.Props.C02.SlackF32`: the f32 side of the vertex and row links, at the IEEE binary32 bit level — a vertex
+                              the f32 outcode test lets through (`outcode_zero_inside`) has its f32 screen position
+                              inside the viewport rectangle exactly (`ndc_f32_bound`, `viewport_y_f32_bound`,
+                              `viewport_x_f32_bound`, `survivor_screen_f32`), so every row an f32 scan visits
+                              between such vertices is a row of the viewport (`rows_in_viewport_f32`,
+                              `row_index_in_bounds_f32`)
 -/
 import Retro.Props.C02.Links
 import Retro.Props.C02.NoPanic
 import Retro.Props.C02.Confined
 import Retro.Props.C02.ConfinedColor
 import Retro.Props.C02.Poison
+import Retro.Props.C02.SlackF32
